@@ -246,4 +246,31 @@ def extra_checks(tier, seed):
                     dict(kind='counterexample', stream='systematic (setup, source, destination, scope) sweep', case=c, model_obs=m, impl_obs=i)))
     else:
         out.append(('systematic_scope_source_destination', True, detail, {}))
+    # machines reconfigured after events have been processed: all global transitions of one event are added by
+    # add_transition after the k-th call (the event is not triggered before); the Coq engine runs the complete machine
+    n4 = 300 if tier == 'quick' else 6000
+    cases = []
+    for i in range(n4):
+        rng = random.Random('C03l-%d-%d' % (seed, i))
+        c = hsm.gen_case(rng, p_parallel=0.4, single_scope=(i % 2 == 0), max_events=3, hist_len=rng.randint(3, 6), p_sep=0.1)
+        glob = [e for e, ts in c['machine']['events'] if ts]
+        if not glob:
+            continue
+        e_late = rng.choice(glob)
+        k = rng.randint(1, len(c['history']) - 1)
+        others = [e for e in range(4) if e != e_late]
+        c['history'] = [(kk, (ev if (j >= k or ev != e_late) else rng.choice(others)), a) for j, (kk, ev, a) in enumerate(c['history'])]
+        c['history'][k] = (0, e_late, c['history'][k][2])
+        c['late_event'] = (k, e_late)
+        c['cls'] = CLASSES[i % len(CLASSES)]
+        cases.append(c)
+    mo, io = hsm.run_pairs(cases)
+    bad = [(c, m, i) for c, m, i in zip(cases, mo, io) if m != i]
+    detail = dict(cases=len(cases), disagreements=len(bad))
+    if bad:
+        c, m, i = bad[0]
+        out.append(('transitions_added_after_events', False, detail,
+                    dict(kind='counterexample', stream='add_transition after events have been processed (hierarchical)', case=c, model_obs=m, impl_obs=i)))
+    else:
+        out.append(('transitions_added_after_events', True, detail, {}))
     return out
